@@ -746,6 +746,8 @@ def model_quantize(model,
 
   for layer in layers:
     layer_config = layer["config"]
+    # Name of the quantized class this layer is converted to, if any.
+    q_name = None
 
     # Dense becomes QDense, Conv1D becomes QConv1D etc
     # Activation converts activation functions.
